@@ -275,6 +275,15 @@ function syntax(req) {
   return out;
 }
 
+// smallest ECMAScript edition whose grammar (per acorn) accepts the text; 0 = none
+const EDITIONS = [5, 2015, 2016, 2017, 2018, 2019, 2020, 2021, 2022, 2023, 2024];
+function minver(req) {
+  for (const v of EDITIONS) {
+    try { parseWith(req.src, req.kind, v); return { version: v }; } catch (e) { var last = String(e.message); }
+  }
+  try { parseWith(req.src, req.kind, 'latest'); return { version: 9999 }; } catch (e) { return { version: 0, msg: String(e.message) }; }
+}
+
 // scope analysis: declared names per scope, references resolved, free names
 function analyze(req) {
   let ast;
@@ -463,6 +472,7 @@ async function handle(line) {
       case 'ping': rep = { pong: true, node: process.version, acorn: acorn.version }; break;
       case 'exec': rep = await execProgram(req); break;
       case 'syntax': rep = syntax(req); break;
+      case 'minver': rep = minver(req); break;
       case 'analyze': rep = analyze(req); break;
       case 'tokens': rep = tokens(req); break;
       default: rep = { error: 'unknown op' };
